@@ -22,6 +22,7 @@ STEP_BASE = 5000
 STEP_PER_BYTE = 400
 RSS_LIMIT_KB = 256 * 1024
 BATCH = 24
+LONG_BATCH = 120
 SHARD = 240
 
 # populated by prepare() in the coordinator before any worker is forked
@@ -346,9 +347,25 @@ def _on_alarm(signum, frame):
     raise _WallGuard()
 
 
+NOFILE_SOFT = 64
+
+
+def _small_fd_table():
+    """resource fault: a small descriptor table, so that a loader that leaks one descriptor per failed load runs
+    out (EMFILE) within one long batch instead of after a thousand loads"""
+    try:
+        import resource
+
+        soft, hard = resource.getrlimit(resource.RLIMIT_NOFILE)
+        resource.setrlimit(resource.RLIMIT_NOFILE, (min(NOFILE_SOFT, soft), hard))
+    except Exception:
+        pass
+
+
 def _batch_child(emit, indices, force_steps=False):
     import signal
 
+    _small_fd_table()
     signal.signal(signal.SIGALRM, _on_alarm)
     for i in indices:
         p = plan_run(i)
@@ -380,6 +397,7 @@ def _batch_child(emit, indices, force_steps=False):
 
 def _sequence_child(emit, items):
     """several stored images loaded one after the other in ONE process (items: explicit images)"""
+    _small_fd_table()
     for k, it in enumerate(items):
         rec = exec_image(core.unb64(it["image_b64"]), it["name"], it["fast_load"], it["get_code"],
                          bool(it.get("count_steps")), tag="q", kind=it.get("kind", "file"))
@@ -530,7 +548,9 @@ def run_shard(shard):
         # faulted host-magic images go alone: only C marshal can corrupt the process
         batch = []
         singles = []
-        while pending and len(batch) < BATCH:
+        # one shard in eight is a long-lived loader process (120 loads) under the small descriptor table
+        bsize = LONG_BATCH if (lo // SHARD) % 8 == 3 else BATCH
+        while pending and len(batch) < bsize:
             i = pending.pop(0)
             p = plan_run(i)
             if predicts_fast_path(p.image, p.get_code) and not p.control:
